@@ -46,8 +46,11 @@ class blockiterator(object):
             else:
                 break
         if padding:
+            cnt = self.bitcnt
             nPi = self.lastblock(Pi,**kargs)
             b,lastb= nPi[:self.blocklen],nPi[self.blocklen:]
+            # a block that carries padding only reports a zero counter:
+            if self.bitcnt==cnt: self.bitcnt = 0
             yield b
             if len(lastb)>0:
                 self.bitcnt = 0
